@@ -213,6 +213,9 @@ def check_case(ctx, report, case, label, captured=None, depth=0):
             report.hit("is_vfit_optimum" if case["method"] == "vfit" else "is_parabola_optimum", v)
     for f in spec["failures"]:
         r, c = f["row"], f["col"]
+        if all(sum(1 for g in report.failures if g["clause"] == cl and g["trigger"] == f["trigger"]) >= 3
+               for cl in f["clauses"]):
+            continue  # this kind is already documented three times
         small = single_pixel(case, r, c)
         impl_pix = {"coeff": impl["coeff"][r][c], "disp": impl["disp"][r][c], "mask": impl["mask"][r][c],
                     "class": f["class"]}
